@@ -45,7 +45,7 @@ def recut(data: bytes, rng, mode="random"):
     if mode == "bytes":
         return [data[i : i + 1] for i in range(n)]
     if mode == "fine":
-        k = max(1, min(n - 1, n // rng.choice([3, 9, 17, 40])))
+        k = max(1, min(n - 1, 500, n // rng.choice([3, 9, 17, 40])))  # capped: every segment is one scheduler step
     else:
         k = min(n - 1, rng.choice([1, 1, 2, 3, 5, 8]))
     pts = sorted({rng.randrange(1, n) for _ in range(k)})
